@@ -2,7 +2,7 @@
      negotiateClient (mechanism selection, initial Step, <auth/>, the "for more"
        loop, the final <success/>/<failure/> read, decodeSASLChallenge),
      negotiateServer (auth/response/abort dispatch, mechanism lookup, the
-       "l > 1" payload rule, Step, failure replies, challenge/success writing),
+       empty / "=" payload rule, Step, failure replies, challenge/success writing),
      the Parse and List callbacks of the feature (mechanism names).
 
    Abstraction boundary.  The model starts at element level: the peer's script
@@ -129,9 +129,11 @@ Definition do_step (e : env) (rl : role) (cr : creds) (m : mech) (k pk n : nat) 
 
 (* ---------------------------------------------------------------- wire and results *)
 
-(* Character data of an element as the code receives it: its length and the
-   result of base64.StdEncoding.Decode on it (None = CorruptInputError). *)
-Record pay := mkPay { p_len : nat; p_dec : option bytes }.
+(* Character data of an element as the code receives it: whether there is
+   none, whether it is the single character "=", and the result of
+   base64.StdEncoding.Decode on it (None = CorruptInputError). *)
+Inductive pform := PNone | PEq | PText.
+Record pay := mkPay { p_form : pform; p_dec : option bytes }.
 
 (* SASL failure conditions written by the server (saslerr.Condition values). *)
 Definition cond_aborted : nat := 1.
@@ -318,9 +320,11 @@ Definition lookup_mech (mechs : list mech) (name : bytes) : option mech :=
   | None => None
   end.
 
-(* "l := DecodedLen(len(payload)); if l > 1 { decode }": DecodedLen n = n/4*3 *)
+(* "if p := selection.Payload; len(p) > 0 && !(len(p) == 1 && p[0] == '=') { decode }":
+   no character data and "=" are the zero-length message, everything else has
+   to decode (also when it is shorter than one base64 quantum) *)
 Definition decode_server (p : pay) : option bytes :=
-  if Nat.ltb (p_len p) 4 then Some [] else p_dec p.
+  match p_form p with PText => p_dec p | PNone | PEq => Some [] end.
 
 (* The dispatch on one element (failure check, DecodeElement, the switch on
    the element name): either a reply and an error, or a payload for Step on
